@@ -301,7 +301,7 @@ pub fn run(ctx: &Ctx) -> Result<Evidence, String> {
         acc.count("concurrent_spelling_threads", threads as u64);
         acc.count("concurrent_longest_spelling_bytes", longest as u64);
     }
-    let mut ev = Evidence::new("cases = (AST, spelling, document): curated ASTs covering each equivalence class and seeded random ASTs, each rendered canonically and in the spellings RFC 9535 declares equivalent: .n / ['n'] / [\"n\"], .* / [*], ..n / ..['n'], ?e / ?(e) / ?((e)) and parentheses around every basic expression, string literals in either quote style, \\uXXXX escapes, every S slot x {SP,HT,LF,CR} singly, all 3^k blank combinations for queries with k <= 6 slots, random mixtures beyond; number literals in all spellings of one value on both sides of every operator against int- and float-valued document numbers. The library's results (node addresses, in order) for a spelling and for the canonical spelling must be identical. Non-trivial = distinct (spelling, document) that differ from the canonical spelling and select at least one node.");
+    let mut ev = Evidence::new("cases = (AST, spelling, document): curated ASTs covering each equivalence class and seeded random ASTs, each rendered canonically and in the spellings RFC 9535 declares equivalent: .n / ['n'] / [\"n\"], .* / [*], ..n / ..['n'], ?e / ?(e) / ?((e)) and parentheses around every basic expression, string literals in either quote style, \\uXXXX escapes, every S slot x {SP,HT,LF,CR} singly, all 3^k blank combinations for queries with k <= 6 slots, random mixtures beyond; number literals in all spellings of one value on both sides of every operator against int- and float-valued document numbers. The library's results (node addresses, in order) for a spelling and for the canonical spelling must be identical. Further: number classes above 2^53 in positional and exponent spellings; a concurrent phase (one thread in four on spellings padded with thousands of blanks and parentheses, the others on the compact ones); member names with DEL / C1 / BOM / non-characters; 3-/4-operand formulas in 13 contexts. Non-trivial = distinct (spelling, document) that differ from the canonical spelling and select at least one node.");
     ev.set("exhaustive", json!(false));
     ev.set("asts", json!(asts.len()));
     ev.assume("the renderer emits only spellings that RFC 9535 defines as equivalent (checked by parsing renderings back with oracle (b) in the oracle crate's tests)");
